@@ -27,7 +27,8 @@ LEVEL_TEXT = ("For every McpPydanticBase subclass discovered under chuk_mcp.prot
               "every input member must come back deep type-strictly equal and every added member must be a declared default. "
               "Every function/method in the package whose parameter type mentions a model with an aliased field is found by "
               "introspection and driven with an instance carrying a unique sentinel in each aliased field; the sentinel must "
-              "leave under the wire name.")
+              "leave under the wire name."
+              " The exclude_none dump (the wire form) must keep everything inside untyped payloads, nulls included.")
 LEVEL_NOTE = ("Trusted: generator's notion of spec-valid; int for a declared-float field compares numerically. Serialisers "
               "that need further required arguments the harness cannot synthesise are listed in evidence as not driven.")
 RULE = ("A: case = (model class, wire object, backend); non-trivial = object has >=1 member. B: case = (serialiser, model "
